@@ -97,7 +97,8 @@ Definition ekey_table (x : ekey) : bytes :=
 (* the guards under which the keys are produced by the code:
    tables never contain ':' (extractTableFromRedisKey cuts at the first one), collection keys fit the
    u16 length field (common.CheckKey limits the user key to 10240 bytes; see verkey_len16),
-   integers are int64; scores are not NaN (NOT enforced by the code: see C12_float_nan_refuted) *)
+   integers are int64; scores are not NaN (node.getScorePairs rejects a NaN score of ZADD and rockredis.ZIncrBy
+   rejects a NaN result; the codec itself does not round-trip a NaN: see C12_float_nan_refuted) *)
 Definition wf_ekey (x : ekey) : Prop :=
   match x with
   | KKV t _ => no_sep t
